@@ -10,6 +10,7 @@ All theorems are for matrices of any size over ℚ.
 -/
 import SkNet.Lemmas.LinOpExpr
 import SkNet.Lemmas.Convert
+import SkNet.Lemmas.ConvertCsr
 
 namespace SkNet.C15
 open SkNet SkNet.LinOp SkNet.Convert
@@ -296,6 +297,41 @@ theorem membership_ok_shape (labels : List Int) (nLabels : Option Nat) (c : Csr 
 theorem from_membership_multilabel :
     (fromMembership (⟨2, 2, #[0, 2, 3], #[0, 1, 1], #[1, 1, 1]⟩ : Csr Rat)).toOption = none := by
   decide +kernel
+
+/-- **get_membership builds the indicator matrix of the labels** (dense denotation of its CSR arrays) -/
+theorem membership_indicator (labels : List Int) (m : Int) (i j : Nat) (hi : i < labels.length) (hj : j < m.toNat) :
+    (csrDense (membershipCsr labels m)).get i j = if labels[i] = (j : Int) then 1 else 0 :=
+  membership_dense labels m i j hi hj
+
+/-! ## get_neighbors / get_degrees / get_weights on the CSR arrays -/
+
+/-- **`csr_matrix(A.T)`** (what `transpose=True` builds) denotes the transposed dense matrix -/
+theorem csr_transpose_denote (c : Csr Rat) : Mat.Eqv (csrDense (csrTranspose c)) (csrDense c).transpose :=
+  csrTranspose_dense c
+
+/-- **get_weights**: row sums of the dense matrix the CSR arrays denote (duplicates add up, explicit zeros do not
+count); column sums with `transpose=True`. Hypothesis: the stored column indices are inside the shape. -/
+theorem get_weights_spec (c : Csr Rat) (h : InRange c) (tr : Bool) :
+    getWeights c tr = (if tr then (csrDense c).transpose else csrDense c).rowSums := getWeights_spec c h tr
+
+/-- a matrix meeting the hypothesis: 2 × 3 with a duplicate entry and an explicit zero -/
+example : ∀ i, i < 2 → ∀ e ∈ (⟨2, 3, #[0, 3, 4], #[2, 0, 2, 1], #[1, 2, 3, 0]⟩ : Csr Rat).row i, e.1 < 3 := by
+  decide +kernel
+
+example : getWeights (⟨2, 3, #[0, 3, 4], #[2, 0, 2, 1], #[1, 2, 3, 0]⟩ : Csr Rat) true = [2, 0, 4] := by decide +kernel
+
+/-- **get_neighbors**: the stored column indices of the row (`IndexError` past the last row); with
+`transpose=True` the rows storing that column, by increasing row -/
+theorem get_neighbors_spec (c : Csr Rat) (node : Nat) :
+    getNeighbors c node false = (if node < c.nRow then .ok ((c.row node).map (·.1)) else .error .indexError) ∧
+    (node < c.nCol → getNeighbors c node true
+      = .ok ((List.range c.nRow).flatMap fun i => ((c.row i).filter fun e => e.1 == node).map fun _ => i)) :=
+  ⟨getNeighbors_spec c node, getNeighbors_transpose_spec c node⟩
+
+/-- **get_degrees**: the number of stored entries of every row, of every column with `transpose=True` -/
+theorem get_degrees_spec (c : Csr Rat) :
+    getDegrees c false = tab c.nRow (fun i => (c.row i).length) ∧
+    getDegrees c true = tab c.nCol (fun j => (transposedRow c j).length) := getDegrees_spec c
 
 /-! ## ★ topk_spec -/
 
